@@ -391,4 +391,34 @@ theorem snodeBmod_is_supernodal_step (cplx : Bool) (jcol fsupc : Nat) (lsub xlsu
   · rw [c1 t ht, hb, hs]
   · rw [c2 i hi hin, hb, hs, LU.snodeGemv_eq_elim]
 
+/-! ### The triangular solves of `gstrs` run the mirrored kernels
+
+`Slu.Kernels.trsvLN` / `trsvUN` (Slu/Model/Kernels.lean) are the specification-level model of the two
+NOTRANS solves of `sp_[sdcz]trsv` / `[sdcz]gstrs`, proved equal to the dense reference on well-formed
+storage (Props/C14 `spTrsv_eq_ref`; C01 `gssv_solves` composes them).  `trsvLNblas` / `trsvUNblas`
+(Lemmas/MyBlas2.lean) run the SAME supernode loop with the diagonal-block solve and the update
+performed by the bit-mirrored `lsolve` + `matvec` into a zero `work[]` + scatter, resp. `usolve` —
+the statements of SRC/dsp_blas2.c:174-186, 200-226 in a non-vendor build.  In exact arithmetic they
+coincide, for every storage, every unrolling scheme. -/
+
+/-- **C01 (forward solve = mirrored `lsolve` + `matvec` per supernode).** -/
+theorem trsvLN_eq_mirrored [Conj K] (cplx : Bool) (F : LUFac K) (x : Array K)
+    (hb : ∀ k, k ≤ F.L.nsuper → (snode F.L k).fsupc + (snode F.L k).nsupc ≤ x.size) :
+    trsvLN F x = trsvLNblas cplx F x := (trsvLNblas_eq_trsvLN cplx F x hb).symm
+
+/-- **C01 (back solve = mirrored `usolve` per supernode).** -/
+theorem trsvUN_eq_mirrored [Conj K] (F : LUFac K) (x : Array K) : trsvUN F false x = trsvUNblas F x :=
+  (trsvUNblas_eq_trsvUN F x).symm
+
+/-- **C01 (the two solves of `gstrs`, NOTRANS).** `gstrsCol F permc permr Tr.N b` is by definition
+`gather permc (spTrsv F .U .N false (spTrsv F .L .N true (scatter permr b)))`; the inner composition
+is the mirrored kernels' one. -/
+theorem spTrsv_notrans_eq_mirrored [Conj K] (cplx : Bool) (F : LUFac K) (x : Array K) (hn : (F.L.n == 0) = false)
+    (hb : ∀ k, k ≤ F.L.nsuper → (snode F.L k).fsupc + (snode F.L k).nsupc ≤ x.size) :
+    spTrsv F .U .N false (spTrsv F .L .N true x) = trsvUNblas F (trsvLNblas cplx F x) := by
+  unfold spTrsv
+  simp only [hn]
+  rw [trsvLNblas_eq_trsvLN cplx F x hb, trsvUNblas_eq_trsvUN]
+  rfl
+
 end Slu.MyBlas2
